@@ -31,35 +31,62 @@ impl<K: Eq, V> HashMap<K, V> {
   pub(crate) fn is_empty(&self) -> bool { self.e.is_empty() }
 }
 
-/// `VecDeque` stand-in (a Vec-backed sequence with the method names SIEVE uses): std's ring-buffer VecDeque makes
-/// CBMC's propositional reduction exceed 24 GB as soon as a push is reachable (measured on the SIEVE evict step, the
-/// topic mailbox and the rendezvous handle gates).  Same status as the HashMap shim: an executable statement of the
-/// assumed contract of a dependency (a finite sequence), listed in the trusted base.
+/// `VecDeque` stand-in: array-backed sequence (same text as contracts/kani/fibre/vshim.rs): std's ring-buffer VecDeque makes
+/// CBMC's propositional reduction exceed 24 GB as soon as a push is reachable (measured on the SIEVE evict step).
+pub(crate) const DQ_CAP: usize = 4;
+/// at most DQ_CAP elements (the harnesses that swap this type in never hold more); no heap, no memmove
 #[derive(Debug)]
-pub(crate) struct VecDeque<T> { pub(crate) v: Vec<T> }
+pub(crate) struct VecDeque<T> { pub(crate) a: [Option<T>; DQ_CAP], pub(crate) n: usize }
 impl<T> VecDeque<T> {
-  pub(crate) fn new() -> Self { VecDeque { v: Vec::new() } }
-  pub(crate) fn len(&self) -> usize { self.v.len() }
-  pub(crate) fn is_empty(&self) -> bool { self.v.is_empty() }
-  pub(crate) fn clear(&mut self) { self.v.clear(); }
-  pub(crate) fn push_back(&mut self, x: T) { self.v.push(x); }
+  pub(crate) fn new() -> Self { VecDeque { a: [const { None }; DQ_CAP], n: 0 } }
+  pub(crate) fn with_capacity(_n: usize) -> Self { Self::new() }
+  pub(crate) fn len(&self) -> usize { self.n }
+  pub(crate) fn is_empty(&self) -> bool { self.n == 0 }
+  pub(crate) fn clear(&mut self) { let mut i = 0; while i < DQ_CAP { self.a[i] = None; i += 1; } self.n = 0; }
+  pub(crate) fn push_back(&mut self, x: T) { assert!(self.n < DQ_CAP, "deque stand-in capacity exceeded (harness bound)"); self.a[self.n] = Some(x); self.n += 1; }
   pub(crate) fn push_front(&mut self, x: T) {
-    // no memmove (Vec::insert / Vec::remove copy overlapping ranges, which CBMC handles badly): push, then rotate by swaps
-    self.v.push(x);
-    let mut i = self.v.len() - 1;
-    while i > 0 { self.v.swap(i, i - 1); i -= 1; }
+    assert!(self.n < DQ_CAP, "deque stand-in capacity exceeded (harness bound)");
+    let mut i = self.n;
+    while i > 0 { self.a[i] = self.a[i - 1].take(); i -= 1; }
+    self.a[0] = Some(x);
+    self.n += 1;
   }
   pub(crate) fn remove(&mut self, i: usize) -> Option<T> {
-    let n = self.v.len();
-    if i >= n { return None; }
+    if i >= self.n { return None; }
+    let out = self.a[i].take();
     let mut j = i;
-    while j + 1 < n { self.v.swap(j, j + 1); j += 1; }
-    self.v.pop()
+    while j + 1 < self.n { self.a[j] = self.a[j + 1].take(); j += 1; }
+    self.n -= 1;
+    out
   }
+  pub(crate) fn pop_front(&mut self) -> Option<T> { self.remove(0) }
+  pub(crate) fn pop_back(&mut self) -> Option<T> { if self.n == 0 { None } else { self.n -= 1; self.a[self.n].take() } }
   pub(crate) fn retain<F: FnMut(&T) -> bool>(&mut self, mut f: F) {
     let mut i = 0;
-    while i < self.v.len() { if f(&self.v[i]) { i += 1; } else { let _ = self.remove(i); } }
+    while i < self.n { if f(self.a[i].as_ref().unwrap()) { i += 1; } else { let _ = self.remove(i); } }
   }
-  pub(crate) fn iter(&self) -> std::slice::Iter<'_, T> { self.v.iter() }
+  pub(crate) fn front(&self) -> Option<&T> { if self.n == 0 { None } else { self.a[0].as_ref() } }
+  // concrete iterator types without a destructor (an opaque `impl Iterator` would extend the borrow over the whole
+  // `if let` that consumes it, which the code under contract does not tolerate)
+  pub(crate) fn iter<'a>(&'a self) -> std::iter::Map<std::slice::Iter<'a, Option<T>>, fn(&'a Option<T>) -> &'a T> {
+    fn un<'b, U>(o: &'b Option<U>) -> &'b U { o.as_ref().unwrap() }
+    self.a[..self.n].iter().map(un::<T> as fn(&'a Option<T>) -> &'a T)
+  }
+  pub(crate) fn iter_mut<'a>(&'a mut self) -> std::iter::Map<std::slice::IterMut<'a, Option<T>>, fn(&'a mut Option<T>) -> &'a mut T> {
+    fn un<'b, U>(o: &'b mut Option<U>) -> &'b mut U { o.as_mut().unwrap() }
+    let n = self.n;
+    self.a[..n].iter_mut().map(un::<T> as fn(&'a mut Option<T>) -> &'a mut T)
+  }
+  /// `drain(..)` only (the whole queue, front to back)
+  pub(crate) fn drain(&mut self, _all: std::ops::RangeFull) -> std::vec::IntoIter<T> {
+    let mut out = Vec::new();
+    while let Some(x) = self.pop_front() { out.push(x); }
+    out.into_iter()
+  }
 }
-impl<T> std::ops::Index<usize> for VecDeque<T> { type Output = T; fn index(&self, i: usize) -> &T { &self.v[i] } }
+impl<'a, T> IntoIterator for &'a VecDeque<T> {
+  type Item = &'a T;
+  type IntoIter = std::vec::IntoIter<&'a T>;
+  fn into_iter(self) -> Self::IntoIter { let mut v = Vec::new(); let mut i = 0; while i < self.n { v.push(self.a[i].as_ref().unwrap()); i += 1; } v.into_iter() }
+}
+impl<T> std::ops::Index<usize> for VecDeque<T> { type Output = T; fn index(&self, i: usize) -> &T { assert!(i < self.n); self.a[i].as_ref().unwrap() } }
